@@ -11,7 +11,7 @@ use embedded_cli::command::RawCommand;
 use embedded_cli::{Command, CommandGroup};
 
 #[derive(Command)]
-pub enum HC {
+pub enum HC<'a> {
     /// Set led
     Led {
         /// LED id
@@ -30,6 +30,18 @@ pub enum HC {
     /// Sub things
     #[command(subcommand)]
     Sub(HS),
+    /// Copy a file.
+    ///
+    /// Second paragraph of the description.
+    Cp {
+        /// Source file
+        #[arg(value_name = "SRC")]
+        from: &'a str,
+        to: Option<&'a str>,
+        /// Block size
+        #[arg(short, long, value_name = "N", default_value_t = 4)]
+        block: u8,
+    },
 }
 
 #[derive(Command)]
@@ -53,23 +65,24 @@ pub enum HHidden {
 
 #[derive(CommandGroup)]
 pub enum HG<'a> {
-    Main(HC),
+    Main(HC<'a>),
     #[group(hidden)]
     Hidden(HHidden),
     More(HM),
     Other(RawCommand<'a>),
 }
 
-const HELP_ALL: &str = "Commands:\r\n  led  Set led\r\n  go   \r\n  sub  Sub things\r\n";
+const HELP_ALL: &str = "Commands:\r\n  led  Set led\r\n  go   \r\n  sub  Sub things\r\n  cp   Copy a file\r\n";
 const HELP_LED: &str = "Set led\r\n\r\nUsage: led [OPTIONS] <ID>\r\n\r\nArguments:\r\n  <ID>  LED id\r\n\r\nOptions:\r\n  -l, --lv [LEVEL]  Level\r\n  -h, --help        Print help\r\n";
 const HELP_GO: &str = "Usage: go [OPTIONS]\r\n\r\nOptions:\r\n  --sp [SPEED]  \r\n  -q            \r\n  -h, --help    Print help\r\n";
 const HELP_SUB: &str = "Sub things\r\n\r\nUsage: sub <COMMAND>\r\n\r\nOptions:\r\n  -h, --help  Print help\r\n\r\nCommands:\r\n  ping  Ping it\r\n";
 const HELP_SUB_PING: &str = "Ping it\r\n\r\nUsage: sub ping\r\n\r\nOptions:\r\n  -h, --help  Print help\r\n";
 const UNKNOWN: &str = "error: unknown command\r\n";
-const HELP_GROUP_ALL: &str = "Commands:\r\n  led  Set led\r\n  go   \r\n  sub  Sub things\r\n\r\nMore:\r\n  halt  Stop\r\n";
+const HELP_GROUP_ALL: &str = "Commands:\r\n  led  Set led\r\n  go   \r\n  sub  Sub things\r\n  cp   Copy a file\r\n\r\nMore:\r\n  halt  Stop\r\n";
+const HELP_CP: &str = "Copy a file.\r\n\r\nSecond paragraph of the description.\r\n\r\nUsage: cp [OPTIONS] <SRC> [TO]\r\n\r\nArguments:\r\n  <SRC>  Source file\r\n  [TO]   \r\n\r\nOptions:\r\n  -b, --block <N>  Block size\r\n  -h, --help       Print help\r\n";
 const HELP_HALT: &str = "Stop.\r\n\r\nUsage: halt\r\n\r\nOptions:\r\n  -h, --help  Print help\r\n";
 
-const R: usize = 200;
+const R: usize = 260;
 
 fn expect(text: &str) -> ExpectSink<R> {
     let mut e = [0u8; R];
@@ -98,7 +111,7 @@ fn fixed_pre() -> Pre {
 macro_rules! help_case {
     ($name:ident, $ty:ty, $raw:expr, $want:expr) => {
         #[kani::proof]
-        #[kani::unwind(201)]
+        #[kani::unwind(261)]
         fn $name() {
             let mut cli = build(&fixed_pre(), expect($want));
             let mut calls = 0usize;
@@ -117,17 +130,19 @@ macro_rules! help_case {
     };
 }
 
-help_case!(help_all, HC, "help", HELP_ALL);
-help_case!(help_led, HC, "help\0led", HELP_LED);
-help_case!(led_dash_h, HC, "led\x005\0-h", HELP_LED);
-help_case!(led_long_help, HC, "led\0--help", HELP_LED);
-help_case!(led_cluster_h, HC, "led\0-lh", HELP_LED);
-help_case!(help_go, HC, "help\0go", HELP_GO);
-help_case!(help_sub, HC, "help\0sub", HELP_SUB);
-help_case!(help_sub_ping, HC, "help\0sub\0ping", HELP_SUB_PING);
-help_case!(sub_ping_dash_h, HC, "sub\0ping\0-h", HELP_SUB_PING);
-help_case!(help_unknown, HC, "help\0nope", UNKNOWN);
-help_case!(help_unknown_sub, HC, "help\0sub\0nope", UNKNOWN);
+help_case!(help_all, HC<'_>, "help", HELP_ALL);
+help_case!(help_led, HC<'_>, "help\0led", HELP_LED);
+help_case!(led_dash_h, HC<'_>, "led\x005\0-h", HELP_LED);
+help_case!(led_long_help, HC<'_>, "led\0--help", HELP_LED);
+help_case!(led_cluster_h, HC<'_>, "led\0-lh", HELP_LED);
+help_case!(help_go, HC<'_>, "help\0go", HELP_GO);
+help_case!(help_cp, HC<'_>, "help\0cp", HELP_CP);
+help_case!(cp_dash_h_among_values, HC<'_>, "cp\0a\0-b\x003\0-h", HELP_CP);
+help_case!(help_sub, HC<'_>, "help\0sub", HELP_SUB);
+help_case!(help_sub_ping, HC<'_>, "help\0sub\0ping", HELP_SUB_PING);
+help_case!(sub_ping_dash_h, HC<'_>, "sub\0ping\0-h", HELP_SUB_PING);
+help_case!(help_unknown, HC<'_>, "help\0nope", UNKNOWN);
+help_case!(help_unknown_sub, HC<'_>, "help\0sub\0nope", UNKNOWN);
 help_case!(group_help_all, HG<'_>, "help", HELP_GROUP_ALL);
 help_case!(group_help_second_member, HG<'_>, "help\0halt", HELP_HALT);
 help_case!(group_help_first_member, HG<'_>, "help\0go", HELP_GO);
